@@ -62,9 +62,13 @@ THEOREMS = [
     "SleapVerif.C14.gen_same_pad_gives_ceil_half",
     "SleapVerif.C14.gen_unet_blocks_eq_model",
     "SleapVerif.C14.gen_unet_blocks_pow2",
+    "SleapVerif.C14.gen_block_filters_eq_model",
+    "SleapVerif.C14.gen_dec_block_filters_is_model",
+    "SleapVerif.C14.closed_form_ne_incremental",
+    "SleapVerif.C14.arch_head_in_channels_counterexample",
 ]
 
-RATES = {"1": (1, 1), "3/2": (3, 2), "2": (2, 1)}
+RATES = {"1": (1, 1), "3/2": (3, 2), "2": (2, 1), "5/4": (5, 4), "7/4": (7, 4), "5/2": (5, 2)}
 KINDS = ["single_instance", "centroid", "centered_instance", "bottomup"]
 HEAD_NAMES = {"single_instance": ["SingleInstanceConfmapsHead"], "centroid": ["CentroidConfmapsHead"],
               "centered_instance": ["CenteredInstanceConfmapsHead"],
@@ -132,6 +136,11 @@ def excluded_regions(c):
     if c["fam"] == "unet":
         if c["cpb"] < 2 and (c["rate"] != "1" or c["stem"] is None):
             r.append("unet_convs_per_block_lt_2")
+        # non-integer rate outside the Lean grid (filters {8,16,24,32,64} x rate 3/2 x max_stride <= 32, where the
+        # tables prove the head arithmetic agrees): Model.__init__'s round/** may disagree with the decoder
+        if RATES[c["rate"]][1] != 1 and not FIX["head"] and not (
+                c["rate"] == "3/2" and c["filters"] in (8, 16, 24, 32, 64) and c["ms"] <= 32):
+            r.append("head_in_channels_ne_decoder_filters")
     else:
         if c["rate"] != "2":
             r.append("wrapper_filters_rate_ne_2")
@@ -158,6 +167,8 @@ def signatures(c, info=None, made=()):
     s = []
     if "unet_convs_per_block_lt_2" in regions and fwd_runtime:
         s.append("unet_convs_per_block_lt_2")
+    if "head_in_channels_ne_decoder_filters" in regions and fwd_runtime and (info or {}).get("head_mismatch"):
+        s.append("head_in_channels_ne_decoder_filters")
     if "wrapper_filters_rate_ne_2" in regions and fwd_runtime:
         s.append("wrapper_filters_rate_ne_2")
     if "wrapper_stem_kernel_geometry" in regions and fwd_runtime:
@@ -181,7 +192,7 @@ def model_line(c, calls):
     var = VARIANTS[c["fam"]].index(c["variant"]) if c["fam"] != "unet" else 0
     hl = head_specs(c)
     return (f"model {c['fam']} {var} {c['filters']} {p} {q} {c['ms']} {c['bos']} {c['stem'] or 0} {c['cpb']} "
-            f"{int(c['mid'])} {int(c['upi'])} 1 {int(FIX['mid'])} {int(FIX['wrap'])} {c.get('stem_kernel', 4)} " + lst(hl) + " "
+            f"{int(c['mid'])} {int(c['upi'])} 1 {int(FIX['mid'])} {int(FIX['wrap'])} {c.get('stem_kernel', 4)} {int(FIX['head'])} " + lst(hl) + " "
             + lst(calls, lambda hw: f"{hw[0]} {hw[1]}"))
 
 
@@ -220,6 +231,14 @@ def gen_cfg(rng, fam=None, small=True):
         if rng.random() < 0.06:  # outside the grid: stem_stride >= 8, possibly >= max_stride (negative down_blocks)
             c["stem"] = rng.choice([8, 16])
             c["float_rate"] = False  # model assumption there: an integer-valued rate is a Python int
+        if rng.random() < 0.3:  # truncation compounds: non-integer rate x small / odd filters x deep encoders
+            c["rate"] = rng.choice(["3/2", "3/2", "5/4", "7/4", "5/2"])
+            c["filters"] = rng.choice([4, 5, 6, 7, 9, 10, 12, 20, 24])
+            c["ms"] = rng.choice([16, 32, 64, 64])
+            c["float_rate"] = False
+            while cost(c) > 1500:
+                c["ms"] //= 2
+            small = False
         S = c["ms"]
     else:
         c["variant"] = rng.choice(VARIANTS[fam][:2] if small else VARIANTS[fam])
@@ -230,7 +249,7 @@ def gen_cfg(rng, fam=None, small=True):
         c["mid"] = True
         if rng.random() < 0.75:
             c["rate"] = "2"
-    strides = [s for s in (1, 2, 4, 8, 16, 32) if s <= S]
+    strides = [s for s in (1, 2, 4, 8, 16, 32, 64) if s <= S]
     mode = rng.random()
     if mode < 0.7:  # documented-valid stride combination
         ok = [s for s in strides if 2 * s <= S]
@@ -310,7 +329,9 @@ def norm(s):
 # The model is always run with both fix flags ON: that is what /repo's HEAD does (24db0b1, e4cd03e) and
 # what the theorems are about.  A tree in which a fix is reverted disagrees with the model and fails
 # the oracle on the repaired region; the `fixed` entries' witnesses are replayed as regressions.
-FIX = {"mid": True, "wrap": True}
+# `head`: fixes/C14-head-in-channels.patch (not applied to /repo yet): detected on the real objects, because the
+# pinned tree and the patched tree are both legitimate states until the coordinator applies it.
+FIX = {"mid": True, "wrap": True, "head": False}
 
 
 def detect_fixes():
@@ -322,6 +343,10 @@ def detect_fixes():
     m = call(build_real, WITNESSES["F-C14-wrapper-output-stride"])
     if m[0] == "ok":
         det["wrap"] = list(m[1].backbone.dec.current_strides) == [8, 4]
+    m = call(build_real, WITNESSES["F-C14-head-in-channels"])
+    if m[0] == "ok":
+        det["head"] = [hl[0].in_channels for hl in m[1].head_layers] == [20]
+        FIX["head"] = det["head"]
     return det
 
 
@@ -344,6 +369,24 @@ def impl_run(c, calls, B=1, seed=0):
     dec = m.backbone.dec
     head = ("built L " + lst(dec.current_strides) + " O " + lst(int(b.refine_convs_filters) for b in dec.decoder_stack)
             + " I " + lst(hl[0].in_channels for hl in m.head_layers))
+    # every block's declared channels by module introspection: UNet encoder convs (in, out), and per decoder
+    # block the first refine conv's in_channels and the ConvTranspose2d's channels (0 under up_interpolate)
+    enc_io, dec_io = [], []
+    if c["fam"] == "unet":
+        for blk in m.backbone.enc.encoder_stack:
+            for layer in getattr(blk, "blocks", []):
+                if isinstance(layer, torch.nn.Conv2d):
+                    enc_io += [layer.in_channels, layer.out_channels]
+    for blk in dec.decoder_stack:
+        convs = [l for l in blk.blocks if isinstance(l, torch.nn.Conv2d)]
+        tconv = [l for l in blk.blocks if isinstance(l, torch.nn.ConvTranspose2d)]
+        dec_io += [convs[0].in_channels if convs else 0, tconv[0].in_channels if tconv else 0]
+    head += " E " + lst(enc_io) + " C " + lst(dec_io)
+    # structural fact used by the signature of F-C14-head-in-channels: a head layer sized differently
+    # from the decoder block it reads
+    strides_, outs_ = list(dec.current_strides), [int(b.refine_convs_filters) for b in dec.decoder_stack]
+    head_mismatch = any(hd.output_stride in strides_ and hl[0].in_channels != outs_[strides_.index(hd.output_stride)]
+                        for hd, hl in zip(m.heads, m.head_layers))
     cap = {}
     hook = m.backbone.register_forward_hook(lambda mod, i, o: cap.__setitem__("o", o))
     g = torch.Generator().manual_seed(seed)
@@ -357,7 +400,7 @@ def impl_run(c, calls, B=1, seed=0):
         if res[0] == "raise":
             break  # later calls would see partially flipped pooling state: the history ends here
     hook.remove()
-    info = {"status": "ok", "model": m}
+    info = {"status": "ok", "model": m, "head_mismatch": head_mismatch}
     if res is None:
         return head, made, info
     if res[0] == "raise":
@@ -660,6 +703,8 @@ WITNESSES = {
                                   rate="2", filters=8, variant="", ms=8, stem=None, bos=2, hos=2, pos=2),
     "F-C14-wrapper-output-stride": dict(fam="swint", kind="centroid", parts=1, edges=1, cpb=2, upi=True, mid=True,
                                         rate="2", filters=0, variant="tiny", ms=16, stem=2, bos=4, hos=4, pos=4),
+    "F-C14-head-in-channels": dict(fam="unet", kind="single_instance", parts=3, edges=1, cpb=2, upi=True, mid=True,
+                                   rate="3/2", filters=4, variant="", ms=32, stem=None, bos=8, hos=16, pos=16),
     "F-C14-wrapper-filters-rate": dict(fam="swint", kind="centroid", parts=1, edges=1, cpb=2, upi=True, mid=True,
                                        rate="3/2", filters=0, variant="tiny", ms=16, stem=2, bos=2, hos=2, pos=2),
     "F-C14-wrapper-max-stride": dict(fam="convnext", kind="centroid", parts=1, edges=1, cpb=2, upi=True, mid=True,
@@ -722,6 +767,26 @@ def main(chk: Check):
                 r = call(lambda: conv(torch.zeros(1, 1, n, n + 1)).shape)
             lines.append(f"sameconv {n} {k}")
             impl.append(f"{r[1][2]}" if r[0] == "ok" else "raise")
+    # generated filter-count definitions vs the REAL Encoder / Decoder modules, at points where truncation compounds
+    from sleap_nn.architectures.encoder_decoder import Decoder, Encoder
+    for f, rate, stem, down in ((4, "3/2", 0, 5), (6, "3/2", 1, 4), (10, "3/2", 2, 3), (8, "3/2", 0, 6), (24, "3/2", 2, 4),
+                                (5, "5/4", 0, 5), (7, "7/4", 1, 3), (6, "5/2", 0, 4), (rng.choice([4, 9, 12, 20]),
+                                 rng.choice(["3/2", "5/4", "7/4"]), rng.choice([0, 1, 2]), rng.choice([3, 4]))):
+        p_, q_ = RATES[rate]
+        r = call(lambda: Encoder(in_channels=1, filters=f, down_blocks=down, filters_rate=p_ / q_, stem_blocks=stem))
+        if r[0] == "ok":
+            blocks = [b for b in r[1].encoder_stack if hasattr(b, "num_convs")][:stem + down]
+            for i, b in enumerate(blocks):
+                which, blk = ("stem", i) if i < stem else ("down", i - stem)
+                lines.append(f"gfilt {which} {f} {p_} {q_} {blk} {stem} {down}")
+                impl.append(str(int(b.filters)))
+        up = stem + down - 1
+        r = call(lambda: Decoder(x_in_shape=8, output_stride=2, current_stride=2 ** up, filters=f, up_blocks=up,
+                                 down_blocks=down, stem_blocks=stem, filters_rate=p_ / q_))
+        if r[0] == "ok":
+            for i, b in enumerate(r[1].decoder_stack[:up]):
+                lines.append(f"gfilt dec {f} {p_} {q_} {i} {stem} {down}")
+                impl.append(str(int(b.refine_convs_filters)))
     cap = {}
     orig_init = UNet.__init__
     try:
@@ -878,6 +943,14 @@ def main(chk: Check):
                     (dict(base_w, fam="unet", rate="1", ms=8, stem=2, cpb=1, mid=False, filters=16, variant=""), (8, 16)),
                     (dict(base_w, fam="unet", rate="1", ms=16, stem=None, cpb=1, filters=8, variant=""), (16, 16))):
         cases.append((c, [size], 1, ["fixed_region:excluded_or_boundary"]))
+    # truncation compounds (non-integer rate x small filters x deep encoder): every block's channels by
+    # introspection + forward; chosen so that the head arithmetic agrees on the unchanged tree
+    for f, rate, ms, stem, bos, hos in ((6, "3/2", 16, None, 2, 2), (4, "3/2", 32, None, 1, 1), (10, "3/2", 32, 2, 2, 4),
+                                         (20, "3/2", 32, None, 4, 4), (8, "3/2", 64, None, 4, 4), (12, "3/2", 64, 4, 8, 8),
+                                         (5, "5/4", 32, None, 2, 2), (7, "7/4", 16, 2, 1, 1), (6, "5/2", 16, None, 2, 2)):
+        c = dict(fam="unet", kind="single_instance", parts=3, edges=1, cpb=2, upi=(f % 2 == 0), mid=True, rate=rate,
+                 filters=f, variant="", float_rate=False, ms=ms, stem=stem, bos=bos, hos=hos, pos=hos)
+        cases.append((c, [(ms, 2 * ms)] if cost(c) <= 800 else [], 1, ["fixed_region:compounding_truncation"]))
     # conv geometry: even kernels, one decoder block (a size error would be silent) and several blocks
     for fam, kern, extra in (("unet", 2, dict(filters=8, ms=16, stem=None, variant="", bos=8, hos=8)),
                              ("unet", 4, dict(filters=8, ms=16, stem=None, variant="", bos=2, hos=4)),
@@ -918,7 +991,10 @@ def main(chk: Check):
     for i in range(n_rand):
         c = gen_cfg(rng, small=not (chk.thorough or i % 40 == 0))
         ck = rng.choice(["single"] * 5 + ["history"] * 2 + ["offgrid"] * 2)
-        cases.append((c, pick_calls(rng, c, ck), rng.choice([1, 1, 2]), [ck]))
+        if c["fam"] == "unet" and cost(c) > 800 and c["filters"] not in (8, 16, 24, 32, 64):
+            cases.append((c, [], 1, ["build_only"]))  # deep / wide compounding configs: module introspection only
+        else:
+            cases.append((c, pick_calls(rng, c, ck), rng.choice([1, 1, 2]), [ck]))
 
     model_outs = run_driver("C14.lean", [model_line(c, calls) for c, calls, _, _ in cases])
     n_done = 0
